@@ -735,7 +735,14 @@ class Executor:
         emitted here was already emitted there"""
         return self.oracle.pos < len(self.oracle.prefix)
 
+    def drain_defs(self):
+        from . import values
+        if values.DEFS:
+            self.st.pc.extend(values.DEFS)
+            del values.DEFS[:]
+
     def oblige(self, name, goal, site=''):
+        self.drain_defs()
         if self.replaying():
             return
         goal = z3.simplify(goal) if isinstance(goal, z3.ExprRef) else z3.BoolVal(bool(goal))
@@ -747,16 +754,20 @@ class Executor:
                                            site=site, inputs=self.old_scope))
 
     def oblige_cover(self, name):
+        self.drain_defs()
         if self.replaying():
             return
         self.obligations.append(Obligation(name, list(self.st.pc), z3.BoolVal(True),
                                            tuple(self.oracle.trace), kind='cover'))
 
     def assume(self, f):
-        self.st.pc.append(_b(f))
+        f = _b(f)
+        self.drain_defs()
+        self.st.pc.append(f)
 
     # ---- forking
     def feasible(self, cond):
+        self.drain_defs()
         t0 = time.time()
         s = z3.Solver()
         s.set('timeout', FEAS_TIMEOUT_MS)
@@ -768,6 +779,7 @@ class Executor:
 
     def decide(self, cond) -> bool:
         cond = _b(cond)
+        self.drain_defs()
         sc = z3.simplify(cond)
         if z3.is_true(sc):
             return True
@@ -810,6 +822,10 @@ class Executor:
 
     def st_Return(self, s, frame):
         v = VNone() if s.value is None else self.eval(s.value, frame)
+        rs = getattr(frame.contract, 'returns', None)
+        if isinstance(v, VSet) and getattr(v, 'empty_literal', False) and isinstance(rs, SetS) \
+                and frame is self.frames[0]:
+            v = rs.empty()
         raise ReturnEx(v)
 
     def st_Break(self, s, frame):
@@ -1301,6 +1317,8 @@ class Executor:
             self.st.write(loc, new)
 
     def unpack(self, v, n):
+        if hasattr(v, 'unpack_model'):
+            return v.unpack_model(self, n)
         if isinstance(v, VTuple):
             if len(v.items) != n:
                 raise Unsupported('tuple arity')
@@ -1354,6 +1372,8 @@ class Executor:
 
     def lift_py(self, obj, name='const'):
         """lift a python constant found in the module namespace"""
+        if isinstance(obj, Value):
+            return obj
         if obj is None:
             return VNone()
         if isinstance(obj, bool):
@@ -1560,7 +1580,17 @@ class Executor:
             if isinstance(op, ast.Mult):
                 return a * b
             raise Unsupported(f'int op {type(op).__name__}')
+        if isinstance(a, VRec):
+            dunder = {ast.BitAnd: '__and__', ast.BitOr: '__or__', ast.Sub: '__sub__', ast.Add: '__add__'}.get(type(op))
+            m = self.find_method(a.sort, dunder) if dunder else None
+            if m is not None:
+                return self.inline_call(m, [a, b], {}, self.frames[-1], key=f'{a.sort.name}.{dunder}')
+            raise Unsupported(f'operator {type(op).__name__} on record {a.sort.name}')
         if isinstance(a, VSet) and isinstance(b, VSet):
+            if getattr(a, 'empty_literal', False) and not getattr(b, 'empty_literal', False):
+                a = SetS(b.elem).empty()
+            elif getattr(b, 'empty_literal', False) and not getattr(a, 'empty_literal', False):
+                b = SetS(a.elem).empty()
             if isinstance(op, ast.BitOr):
                 r = a | b
             elif isinstance(op, ast.BitAnd):
